@@ -359,6 +359,79 @@ theorem C08_failed_body_not_completed (items : List Item) (sched : List CapAns)
     rw [hf] at this; cases this
   exact ⟨hne, hnd hne⟩
 
+/-- **C08_polls_bounded** (termination measure): under the contract the loop asks for capacity
+at most once per body byte — it cannot spin. -/
+theorem C08_polls_bounded (items : List Item) (sched : List CapAns)
+    (hc : OracleContract sched (sendBody items sched).polls) :
+    (sendBody items sched).polls.length ≤ (bodyBytes items).length :=
+  sendBody_polls_le items sched hc.good
+
+/-! ## The loop as an event machine: invariants over all answer sequences -/
+
+/-- **C08_machine_agrees**: the recursive model of the loop and the event machine (`step`, one
+transition per `poll_capacity` answer) send the same frames and end the same way, for every
+body and every schedule. -/
+theorem C08_machine_agrees (items : List Item) (sched : List CapAns) :
+    (runSteps items sched).frames = (sendBody items sched).frames ∧
+    (runSteps items sched).end_ = (sendBody items sched).end_ :=
+  runSteps_eq_sendBody items sched
+
+/-- **C08_invariant**: after *every* sequence of capacity answers (grants of any size incl. 0,
+`closed`, `err`, in any order, any length) the suspended task satisfies:
+bytes sent ++ unsent remainder of the current chunk ++ bytes the body will still produce = the
+body; a task that waits has a non-empty remainder (never a zero reservation); END_STREAM has
+been sent iff the task finished `done`, and then nothing is left. -/
+theorem C08_invariant (items : List Item) (sched : List CapAns) :
+    let s := runSteps items sched
+    wireBytes s.frames ++ s.cur ++ bodyBytes s.items = bodyBytes items ∧
+    (s.fin = none → s.cur ≠ []) ∧
+    ((∃ f ∈ s.frames, f.eos = true) ↔ s.fin = some .done) ∧
+    (s.fin = some .done → s.cur = [] ∧ s.items = []) :=
+  let h := runSteps_inv items sched
+  ⟨h.bytes, h.waiting, h.eos, h.done⟩
+
+/-! ## Refinement to the client's view -/
+
+/-- what a client that reassembles the stream sees -/
+structure ClientView where
+  status : Nat
+  headers : List Header
+  body : Bytes
+  /-- the stream ended with END_STREAM (not with a reset) -/
+  complete : Bool
+  deriving DecidableEq
+
+def view (w : Wire) : Option ClientView :=
+  w.head.map fun h => ⟨h.status, h.headers, wireBytes w.frames, decide (w.end_ = .done)⟩
+
+/-- the specification: the prepared head, and the handler's bytes unless the request was HEAD or
+the response is bodiless -/
+def spec (date : String) (res : Response) (headReq : Bool) (body : List Item) : ClientView :=
+  let p := prepareResponse res.status res.size res.headers date
+  ⟨res.status, p.1, if headReq || p.2.isEof then [] else bodyBytes body, true⟩
+
+/-- **C08_refines_spec**: whenever the response head can be sent, the client's view is exactly
+the specification — for HEAD / bodiless responses unconditionally, otherwise for every body
+that does not fail and every schedule that satisfies the oracle contract. -/
+theorem C08_refines_spec (date : String) (res : Response) (headReq : Bool) (body : List Item)
+    (sched : List CapAns)
+    (h : (headReq || (prepareResponse res.status res.size res.headers date).2.isEof) = true ∨
+         (bodyFails body = false ∧ OracleContract sched (sendBody body sched).polls ∧
+          (bodyBytes body).length ≤ sched.length)) :
+    view (handleResponse date res headReq body true sched) = some (spec date res headReq body) := by
+  by_cases hb : ((prepareResponse res.status res.size res.headers date).2.isEof || headReq) = true
+  · have hb' : (headReq || (prepareResponse res.status res.size res.headers date).2.isEof) = true := by
+      rw [Bool.or_comm]; exact hb
+    simp [view, spec, handleResponse, hb, hb', wireBytes]
+  · have hb2 : ((prepareResponse res.status res.size res.headers date).2.isEof || headReq) = false := by
+      simpa using hb
+    have hb' : (headReq || (prepareResponse res.status res.size res.headers date).2.isEof) = false := by
+      rw [Bool.or_comm]; exact hb2
+    rcases h with h | ⟨hok, hc, hlen⟩
+    · rw [hb'] at h; cases h
+    · obtain ⟨h1, h2, _⟩ := C08_body_exact body sched hok hc hlen
+      simp [view, spec, handleResponse, hb2, hb', h1, h2]
+
 /-! ## F11: the loop before the repair -/
 
 /-- the statement `C08_body_exact` is **false** for the loop as it was before the repair: a
